@@ -1007,11 +1007,14 @@ const FRAG_BYTES: &[&[u8]] = &[
 
 fn gen_source(rng: &mut Rng, pair: &str) -> Vec<u8> {
     let mut out = Vec::new();
-    let target = match rng.below(16) {
-        0 => 0,
-        1 | 2 => rng.range(1, 3),
-        3..=8 => rng.range(4, 24),
-        _ => rng.range(25, 48),
+    let target = match rng.below(64) {
+        0..=3 => 0,
+        4..=11 => rng.range(1, 3),
+        12..=35 => rng.range(4, 24),
+        36..=60 => rng.range(25, 48),
+        // occasionally long sources: offsets beyond 255 and beyond 65535
+        61 | 62 => rng.range(250, 700),
+        _ => if rng.chance(1, 3) { rng.range(65_500, 66_000) } else { rng.range(250, 520) },
     };
     while out.len() < target {
         match pair {
